@@ -172,6 +172,16 @@ func (c *c10Compiler) get(src string, vars bool, cache bool) (*gojq.Code, error)
 	return code, nil
 }
 
+func c10LeadingZeros(text string) string {
+	if strings.HasPrefix(text, "-") {
+		return "-000" + text[1:]
+	}
+	if text == "" {
+		return text
+	}
+	return "00" + text
+}
+
 func c10Lit(text string) string {
 	if strings.HasPrefix(text, "-") {
 		return "(" + text + ")"
@@ -267,7 +277,12 @@ func c10ArithCase(cc *c10Compiler, c map[string]any) (vlib.M, error) {
 		mode, _ := spec["mode"].(string)
 		la, _ := spec["la"].(string)
 		lb, _ := spec["lb"].(string)
-		src, err := c10Query(kind, op, mode, a, b)
+		// "litz": the same literals spelled with leading zeros (same numbers; parseNumber must read them in base ten)
+		qa, qb := a, b
+		if mode == "litz" {
+			mode, qa, qb = "lit", c10LeadingZeros(a), c10LeadingZeros(b)
+		}
+		src, err := c10Query(kind, op, mode, qa, qb)
 		if err != nil {
 			return nil, err
 		}
